@@ -86,6 +86,8 @@ pub fn eval(e: &E, env: &Env) -> Result<i64, EvalErr> {
         E::Chr(c) => *c as i64,
         E::Pc => env.pc.ok_or_else(|| Fail("pc used outside a segment".into()))?,
         E::Arg(n) => return Err(Fail(format!("unexpanded macro parameter @{}", n))),
+        E::Big(t) => return Err(Fail(format!("literal {} does not fit 64 bits", t))),
+        E::Flag(t) => return Err(Unsure(format!("the value of the .define flag {} is not modelled", t))),
         E::Sym(s) => {
             let k = lc(s);
             if let Some(x) = env.equs.get(&k) {
@@ -438,9 +440,21 @@ fn subst_lines(body: &[Ln], args: &[Opnd]) -> Result<Vec<Ln>, String> {
                 St::If(arms, els) => St::If(
                     arms.iter()
                         .map(|(c, b)| {
+                            let flag = |n: &String| -> Result<String, String> {
+                                // `.ifdef @n`: the argument must be a plain name
+                                match n.strip_prefix('@').and_then(|d| d.parse::<usize>().ok()) {
+                                    Some(i) => match args.get(i) {
+                                        Some(Opnd::Ex(E::Sym(s))) | Some(Opnd::Ex(E::Flag(s))) => Ok(s.clone()),
+                                        None => Ok(n.clone()),
+                                        other => Err(format!("flag parameter {} needs a plain name, got {:?}", n, other)),
+                                    },
+                                    None => Ok(n.clone()),
+                                }
+                            };
                             let c2 = match c {
                                 Cond::Expr(e) => Cond::Expr(e.subst(args)?),
-                                o => o.clone(),
+                                Cond::Ifdef(n) => Cond::Ifdef(flag(n)?),
+                                Cond::Ifndef(n) => Cond::Ifndef(flag(n)?),
                             };
                             Ok((c2, subst_lines(b, args)?))
                         })
